@@ -34,7 +34,7 @@ CLAIMED = {
             "DESIGN.md 8 (C01), 5", TB),
     "C02": ("model_checking",
             "TLC checks totality of the reference decoder on every (type, small body) state (MC_Decoder); the real decoders and reply parsers "
-            "run on enumerated input families under catch_unwind / counting allocator / watchdog in a debug and a release build; TLC validates "
+            "run on enumerated input families under catch_unwind / counting allocator / watchdog in a debug and a release build, with a logger that evaluates log arguments; TLC validates "
             "all anomalies and a sample against the reference (TraceCodec, TraceParse)",
             "Exhaustive for bodies <= 2 bytes on all 55 packet types and behind all control fields for the 17 reply parsers; every truncation and "
             "single-byte substitution of a corpus; seeded structure-aware mutations; debug/release parity by outcome hash over every case.",
@@ -61,59 +61,67 @@ CLAIMED = {
     "C05": ("model_checking",
             "TLA+ I-spec of one command exchange (ZvtSequence: step function over a PT script) model-checked for all 18 commands x all scripts "
             "to depth 3 (quick) / 5 (thorough) with P_C05 as invariants; every model behaviour replayed against the real into_stream through a "
-            "scripted peer and compared event by event; random 40-frame exchanges validated by TLC (TraceSequence)",
+            "scripted peer and compared event by event; random 40-frame exchanges and a control-field / NACK-code sweep per command validated by TLC (TraceSequence)",
             "Bounded-exhaustive over reply scripts (every order, repetition, final position, frames queued behind the final packet), the code is "
             "bound in both directions; the P-spec is evaluated on the observed log only when the I-spec rejects it.",
             "DESIGN.md 8 (C05), 6", TB),
     "C06": ("model_checking",
             "same I-spec and runs as C05 with the fault alphabet (NACK, foreign control field, malformed body, truncated frame, EOF) at every "
-            "position, P_C06 (one error, then silence, no answer for the failing frame) as invariants and as trace predicates",
+            "position, P_C06 (one error, then silence, no answer for the failing frame) as invariants and as trace predicates; every 80 xx / 84 xx control field in place of the acknowledgement and every NACK code in place of the first reply, per command",
             "Every fault kind at every position of every script up to the depth bound, plus frames the PT might still send afterwards.",
             "DESIGN.md 8 (C06), 6", TB),
     "C07": ("model_checking",
             "TLA+ I-spec of the client (FeigClient: program over command exchanges) against a nondeterministic terminal with a ledger, "
             "model-checked over all call histories (MC_Client) with the P-spec acceptors of ClientProps as invariant (I-spec => TxnMap); every "
             "2-call and sampled 3-call history replayed against the real Feig client through the zvt_verif hook and a simulated terminal; "
-            "traces validated by TLC (TraceClient)",
+            "traces validated by TLC (TraceClient); FeigClient refines the abstract token map TxnMap (TLC, PROPERTY RefinesTxnMap), whose invariants "
+            "Apalache discharges inductively (thorough); random reply-script walks over each command's reply set",
             "Bounded-exhaustive over histories (tokens {a,b}, max 0..2, every outcome, dangling yes/no; depth 3 quick, 4 thorough, 3 tokens / max "
             "0..3 in thorough), random walks to depth 40; requests are decoded by the reference codec, so 'acts on exactly that receipt' is "
             "checked on the wire.",
             "DESIGN.md 8 (C07), 7", TB),
     "C08": ("model_checking",
             "same I-spec; TLC generates the amount / currency / receipt / token / status boundary grid (Gen_Client C08) with decimal "
-            "arithmetic in TLA+ (Decimal.tla); begin + commit run on the real client; TraceClient compares every request field and the summary",
+            "arithmetic in TLA+ (Decimal.tla); begin + commit run on the real client; TraceClient compares every request field and the summary; the "
+            "pairing of token and receipt number is checked on every release independently of the map; refused-release histories, reply-script walks",
             "The u64 x 10^12 amount domain is covered at every boundary (0, pre-1, pre, pre+1, 2^32, 2^63, u64::MAX, every digit count in thorough) "
             "plus random; small amounts exhaustively inside MC_Client.",
             "DESIGN.md 8 (C08)", TB),
     "C09": ("model_checking",
             "TLA+ packet-level model of the reconnecting stream (ResetStream) with P_C09 invariants; TLC-generated single-fault scenarios "
             "(every operation x exchange x frame x fault kind, handshake faults, foreign serial) and seeded multi-fault walks run on the real "
-            "client; TLC runs the P_C09 acceptor over the per-connection log (TraceConn)",
+            "client; TLC runs the P_C09 acceptor over the per-connection log (TraceConn) and validates every trace as a behaviour of ResetStream "
+            "with the real constants (TraceStream: attempt budget, throttle law, deadlines, connection ids and virtual timestamps bound to the "
+            "model's variables); Apalache discharges the connection discipline as an inductive invariant (thorough)",
             "Single faults exhaustively at every frame position incl. the handshake; multi-fault sequences sampled; each followed by a further "
             "operation to observe reuse.",
             "DESIGN.md 8 (C09), 7", TB),
     "C10": ("model_checking",
             "ResetStream liveness (Returns) under weak fairness and the Bounded invariant checked by TLC; the unguarded variant demonstrates the "
             "repaired defect; stalls at every frame of every exchange and of the handshake x read_card_timeout values run on the real client "
-            "(debug and release) on tokio's paused clock under a one-virtual-day watchdog; TLC runs the P_C10 acceptor (TraceConn)",
+            "(debug and release) on tokio's paused clock under a one-virtual-day watchdog; TLC runs the P_C10 acceptor (TraceConn) and validates "
+            "every trace against ResetStream (TraceStream); calls that keep exchanging packets beyond any retry budget count as not returning",
             "Every stall placement is enumerated; time is virtual, so 20 x 60 s budgets are explored exactly; all 256 read_card_timeout values "
             "in thorough.",
             "DESIGN.md 8 (C10), 7", TB),
     "C18": ("model_checking",
             "Classify / CanonUid stated in FeigClient + ClientProps (P18); TLC generates UID / application-list / abort-code scenarios "
-            "(Gen_Client C18); read_card runs on the real client; TraceClient compares",
+            "(Gen_Client C18); read_card runs on the real client; TraceClient compares; random reply-script walks",
             "UID lengths 0..20 x zero-prefix and case patterns x list shapes x leading intermediates, all 256 abort codes, plus random UIDs.",
             "DESIGN.md 8 (C18)", TB),
     "C19": ("model_checking",
             "MC_Client with P19 as invariant over all histories incl. ledgers with a dangling pre-authorisation and every end-of-day outcome; "
             "replayed histories, every end-of-day abort code behind idle-going commits and cancels, random walks; P19 evaluated by TLC over "
-            "the terminal's request log of each call",
+            "the terminal's request log of each call; dangling receipt numbers over the field's range, aborts naming a receipt number, "
+            "unexpected answers to the pending query, reply-script walks",
             "Bounded-exhaustive over histories; the request chain FFFF-query -> reversal of the reported receipt -> end-of-day is compared "
             "request by request.",
             "DESIGN.md 8 (C19)", TB),
     "C20": ("model_checking",
             "MC_Client (with configure) checks P20 on the I-spec; TLC generates result code x operation x exchange x position scenarios "
-            "(Gen_Client C20); the real client runs them; TraceClient evaluates P20 with the specification's own message table",
+            "(Gen_Client C20: intermediate statuses / a status information in front of the abort, aborts naming a receipt number, an abort on the "
+            "re-sent request after a connection fault); the real client runs them; TraceClient evaluates P20 - also after connection churn, on "
+            "the replies the client consumed and acknowledged - with the specification's own message table; reply-script walks",
             "All 256 codes x every exchange of every operation in thorough (every 16th + the named codes in quick).",
             "DESIGN.md 8 (C20)", TB),
     "C11": ("model_checking",
@@ -125,11 +133,11 @@ CLAIMED = {
             "DESIGN.md 8 (C11)", TB),
     "C12": ("model_checking",
             "TLA+ grammar of the derive attributes (DeriveGrammar: behaviours = struct definitions, well-formedness as action guards) "
-            "enumerated by TLC for all definitions with <= 2 fields and simulated up to 6; a seeded sample is generated as Rust source, compiled "
+            "enumerated by TLC for all definitions with <= 2 fields and simulated up to 6; a class-stratified seeded sample (thorough: one definition per pair of field classes) is generated as Rust source, compiled "
             "with the working tree's macro, and as a layout table for the reference codec; values, permutations, duplicates, foreign tags and "
             "suffixes from the same generators as C01/C13/C14 run on the derived code; TLC judges (TraceCodec over the generated layout)",
             "programs are enumerated exhaustively at 2 fields (pairwise interaction of all field variants) and sampled for compilation "
-            "(260 + 40 larger structs quick, ~5,000 thorough); the oracle interprets the generator's own description, never the macro's output.",
+            "(~440 structs quick, ~9,000 thorough); the oracle interprets the generator's own description, never the macro's output.",
             "DESIGN.md 8 (C12)", TB),
     "C13": ("model_checking",
             "TLC re-assembles reference-encoded tagged groups (Gen_C13: permutations, duplicates, removals, foreign tags) with the outcome the "
@@ -139,7 +147,8 @@ CLAIMED = {
             "DESIGN.md 8 (C13)", TB),
     "C14": ("model_checking",
             "TLC generates canonical packets with suffixes and nested containers with inserted bytes (Gen_C13, C14 mode); the real decoder runs on "
-            "each; TLC judges value equality and the exact remainder (TraceCodec P14 flags)",
+            "each; TLC judges value equality and the exact remainder (TraceCodec P14 flags); the same law on a connection: packets waiting "
+            "behind a packet come back exactly as written from the real read_packet",
             "All 256 single-byte suffixes plus longer ones for three base values of every command type, 5 suffixes on a sample of all boundary "
             "values, every tagged nested container with bytes inserted behind it.",
             "DESIGN.md 8 (C14)", TB),
